@@ -528,7 +528,9 @@ func init() {
 			defer cancel()
 			cmd := exec.CommandContext(ctx, pint, argv...)
 			cmd.Dir = dir
-			cmd.Env = append(os.Environ(), "NO_COLOR=1")
+			// GOMAXPROCS=1: a panic in a scan worker runs the deferred wg.Done() first; with several Ps the main
+			// goroutine can occasionally finish and exit 0 before the runtime aborts, hiding the crash.
+			cmd.Env = append(os.Environ(), "NO_COLOR=1", "GOMAXPROCS=1")
 			var stderr bytes.Buffer
 			cmd.Stderr = &stderr
 			err := cmd.Run()
